@@ -66,10 +66,17 @@ class Facts:
             with open(sigfile) as fh:
                 base_sigs = json.load(fh)
         renamed = set()
-        for n in sorted(self.new_fns):
-            for g in gone:
-                if parent(g) == parent(n) and g in base_sigs and list(base_sigs[g][0]) == list(sig(n)[0]) and base_sigs[g][1] == sig(n)[1]:
-                    renamed.add(n)
+        for g in gone:
+            cands = [n for n in sorted(self.new_fns) if parent(g) == parent(n) and g in base_sigs and list(base_sigs[g][0]) == list(sig(n)[0]) and base_sigs[g][1] == sig(n)[1]]
+            if len(cands) > 1:
+                # one vanished function, several new ones of its signature (the function renamed *and* wrapped: `fn a(x) { b(x)?.filter(..) }`
+                # next to `fn b(x) { <the old body> }`): the one that took the vanished function's place is the one the others are not
+                # called from; a candidate that another candidate calls is a helper of that one and is expanded into it like any new
+                # function, so the anchored body is the composition.  (Candidates that do not call each other are all kept.)
+                called = {t for c in cands for x, _c in walk(self.hir[c]['body']) if x.get('k') in ('Call', 'MethodCall') for t in [callee_of(x)] if t in cands and t != c}
+                outer = [c for c in cands if c not in called]
+                cands = outer or cands
+            renamed.update(cands)
         self.new_fns -= renamed
         self.renamed_fns = sorted(renamed)
         if not self.new_fns:
